@@ -26,6 +26,9 @@ type sendBytesFunc func(ctx context.Context, b []byte) error
 type recvBytesFunc func(ctx context.Context) ([]byte, error)
 
 type GoBackNConn struct {
+	// isClient is true for the side that initiates the handshake.
+	isClient bool
+
 	cfg *config
 
 	sendQueue *queue
@@ -724,6 +727,22 @@ func (g *GoBackNConn) receivePacketsForever() error { // nolint:gocyclo
 			}
 
 			return errTransportClosing
+
+		case *PacketSYN:
+			// The server answers every SYN of the client. A client
+			// that had to resend its SYN during the handshake
+			// therefore gets the answers to its surplus SYNs once
+			// the handshake is complete. They carry nothing new, so
+			// the client skips them. For a server a SYN means that
+			// the client has restarted.
+			if g.isClient {
+				g.log.Tracef("Ignoring late SYN response")
+
+				continue
+			}
+
+			return fmt.Errorf("received unexpected message: %T",
+				msg)
 
 		default:
 			return fmt.Errorf("received unexpected message: %T",
